@@ -215,6 +215,17 @@ func runC07(c *Ctx) {
 		}
 	}
 
+	// ---- C07.O: the dedup LRU stays in the polling goroutine (= C04.O)
+	c.Rule("C07.O", "the (not goroutine-safe) dedup LRU is confined to the polling goroutine (= C04.O)", 1)
+	if f := c.need(p, "C07.O", "agent.pollForNewRequests"); f != nil {
+		if newc := c.UniqueCall("C07.O", p, f, false, "github.com/golang/groupcache/lru.New"); newc != nil {
+			checkLRUConfined(c, p, "C07.O", newc)
+		}
+	}
+	// ---- C07.N: nil messages crossing the shim's channels
+	c.Rule("C07.N", "a possibly-nil message sent on a shim channel is nil-checked by the receiving goroutine before it is dereferenced", 2)
+	ruleShimNilMessages(c, p, "C07.N")
+
 	// ---- C07.P / C07.C: shared obligations
 	c.Rule("C07.P", "published response maps are not aliased with maps the handler goroutine keeps mutating (= C03.P)", 2)
 	rulePublishedMaps(c, p, "C07.P")
